@@ -165,6 +165,55 @@ func msgInstrBytes(n int) []byte {
 	return x.b
 }
 
+// pktImages: Ethernet frames that exercise every payload decoder reachable from a packet-in: tagged / untagged,
+// IPv4 (ICMP, UDP, options + other protocol), ARP, IPv6 (ICMPv6, UDP, hop-by-hop, routing, fragment and a chain of the
+// three), unknown ethertype.
+func pktImages() [][]byte {
+	eth := func(vlan bool, etype int) *msgBB {
+		x := nb().hex("ffffffffffff").hex("0a0b0c0d0e0f")
+		if vlan {
+			x.u16(0x8100, 3<<13|100)
+		}
+		return x.u16(etype)
+	}
+	ip4 := func(ihl, proto int, payload []byte, opts string) []byte {
+		return nb().u8(4<<4|ihl, 0x2e).u16(4*ihl+len(payload), 0x1234, 0x4000).u8(64, proto).u16(0xabcd).hex("0a000001").hex("0a000002").hex(opts).raw(payload).b
+	}
+	icmp := nb().u8(8, 0).u16(0x1111).hex("000100020a0b0c0d0e0f1011").b
+	udp := func(n int) []byte { return nb().u16(1000, 2000, 8+n, 0x2222).raw(protoSeqBytes(n, 0x30)).b }
+	ip6 := func(nh int, payload []byte) []byte {
+		return nb().hex("6abcdef0").u16(len(payload)).u8(nh, 63).hex("20010db8000000000000000000000001").hex("20010db8000000000000000000000002").raw(payload).b
+	}
+	hbh := func(nh int) []byte { return nb().u8(nh, 0).hex("010400000000").b }
+	rt := func(nh int) []byte {
+		return nb().u8(nh, 2, 0, 1).hex("00000000").hex("20010db80000000000000000000000aa").b
+	}
+	frag := func(nh int) []byte { return nb().u8(nh, 0).u16(185<<3 | 1).u32(0xcafebabe).b }
+	cat := func(bs ...[]byte) []byte {
+		var o []byte
+		for _, b := range bs {
+			o = append(o, b...)
+		}
+		return o
+	}
+	icmp6 := nb().u8(128, 0).u16(0x3333).hex("00010002aabbccdd").b
+	var out [][]byte
+	out = append(out,
+		eth(false, 0x0800).raw(ip4(5, 1, icmp, "")).b,
+		eth(true, 0x0800).raw(ip4(5, 17, udp(12), "")).b,
+		eth(false, 0x0800).raw(ip4(6, 2, nb().hex("1164ee9b00000000").b, "94040000")).b,
+		eth(false, 0x0806).hex("0001080006040001").hex("0a0b0c0d0e0f").hex("0a000001").hex("000000000000").hex("0a000002").b,
+		eth(false, 0x86dd).raw(ip6(58, icmp6)).b,
+		eth(true, 0x86dd).raw(ip6(17, udp(5))).b,
+		eth(false, 0x86dd).raw(ip6(0, cat(hbh(17), udp(3)))).b,
+		eth(false, 0x86dd).raw(ip6(43, cat(rt(58), icmp6))).b,
+		eth(false, 0x86dd).raw(ip6(44, cat(frag(17), udp(9)))).b,
+		eth(true, 0x86dd).raw(ip6(0, cat(hbh(43), rt(44), frag(17), udp(7)))).b,
+		eth(false, 0x88cc).hex("0207040a0b0c0d0e0f0403020001060200780000").b,
+	)
+	return out
+}
+
 func msgEth(vlan bool, payload string) string {
 	v := "p.VLAN(0,0,0,0)"
 	if vlan {
@@ -357,6 +406,13 @@ func genMsgKinds(c *Ctx) {
 		}
 	}
 	c.decLite("decc", "NewPacketIn", ofFrame(10, 7, nb().u32(9).u16(60).u8(1, 2).q(3).raw(msgMatchBytes(2)).hex("0102").raw(msgEthBytes(true, "c1c2c3")).b), 48)
+	// packet-in frames carrying real packets: every payload decoder, through Parse (and, derived from these, the
+	// ownership check that overwrites the input buffer afterwards)
+	for i, pk := range pktImages() {
+		fr := ofFrame(10, uint32(100+i), nb().u32(uint32(i)).u16(len(pk)).u8(i%3, i).q(uint64(i)*0x0101010101010101).raw(msgMatchBytes(i%4)).z(2).raw(pk).b)
+		c.decLite("parse", "", fr, 8)
+		c.decFew("dec", "p.Ethernet", pk)
+	}
 	c.decLite("decc", "NewFeaturesReply", ofFrame(6, 7, append(nb().hex("0000010203040506").u32(256).u8(254, 0).hex("0102").u32(0x4f, 0).b, msgPhyPortBytes(1)...)), 40)
 	c.run("enc", "PacketIn(Header(4,10,0,7),1,2,3,4,5,Match(1,4,[]),x,p.Ethernet(0,x,x,p.VLAN(0,0,0,0),0,~))")
 	c.run("enc", "PacketIn(Header(4,10,0,7),1,2,3,4,5,Match(1,4,[]),x,p.Ethernet(0,x01,x0203,p.VLAN(33024,7,1,4095),2,u.Buffer(x0a)))")
